@@ -58,6 +58,18 @@ type Scenario struct {
 	Events   []Event           `json:"events,omitempty"`
 	Cycles   uint64            `json:"cycles"`
 	Expect   *Violation        `json:"expect,omitempty"`
+	// Prelude: scenarios of the same property executed earlier in the same process (their results are
+	// ignored). Only present in replay files of violations that depend on the history of the process.
+	Prelude *Prelude `json:"prelude,omitempty"`
+}
+
+// Prelude names the scenarios with indices From, From+Stride, ... (Count of them) of (Seed, Tier).
+type Prelude struct {
+	Seed   uint64 `json:"seed"`
+	Tier   string `json:"tier"`
+	From   int    `json:"from"`
+	Stride int    `json:"stride"`
+	Count  int    `json:"count"`
 }
 
 func (s *Scenario) P(name string, def int64) int64 {
